@@ -4,7 +4,7 @@
 //!        | listen <script> | dr <n> | adr <0|1>
 //!   script: comma separated events consumed by the radio in order: T = rx_single timeout, E = radio error at this call,
 //!           X<hex> = frame received (rx_single or rx_continuous), P = rx_continuous stays pending (timer wins)
-//! The fault position k makes the k-th radio call (0-based, counted over the whole line) fail.
+//! The fault position k makes the k-th radio call (0-based, counted over the whole line) fail; kxN makes the N calls from k on fail.
 use crate::macops::{region_cfg, rng_of, ScriptRng};
 use crate::util::*;
 use lorawan_device::async_device::radio::{PhyRxTx, RxConfig, RxMode, RxQuality, RxStatus, Timer, TxConfig};
@@ -20,7 +20,7 @@ pub struct Shared {
     pub trace: Vec<String>,
     pub script: VecDeque<String>,
     pub calls: usize,
-    pub fault: Option<usize>,
+    pub fault: Option<(usize, usize)>,
     pub lead: u32,
 }
 pub struct Radio(pub Rc<RefCell<Shared>>);
@@ -37,7 +37,7 @@ impl Radio {
         let mut s = self.0.borrow_mut();
         let n = s.calls;
         s.calls += 1;
-        if s.fault == Some(n) {
+        if matches!(s.fault, Some((k, len)) if k <= n && n < k + len) {
             s.trace.push(format!("{what}!ERR"));
             return Err(RErr);
         }
@@ -142,7 +142,8 @@ pub fn run_history(line: &str) -> String {
             "r" => r = int(v),
             "lead" => lead = int(v),
             "classc" => classc = v != "0",
-            "fault" => fault = if v == "-" { None } else { Some(int::<usize>(v)) },
+            // k: call k fails; kxN: the N calls from k on fail (an outage)
+            "fault" => fault = if v == "-" { None } else { Some(match v.split_once('x') { Some((a, b)) => (int::<usize>(a), int::<usize>(b)), None => (int::<usize>(v), 1) }) },
             "bias" => bias = v,
             "session" => session = Some(v.to_string()),
             _ => {}
